@@ -3936,11 +3936,15 @@ class FuncSublist(ValueFunc):
         start = args.getInt("startidx").value
         if start < 0:
             start = len(value) + start
+        if start < 0:
+            start = 0
         if start > len(value):
             return ValueList()
         end = args.getInt("endidx", len(value)).value
         if end < 0:
             end = len(value) + end
+        if end < 0:
+            end = 0
         if end > len(value):
             end = len(value)
         result = ValueList()
@@ -3975,11 +3979,15 @@ class FuncSubstr(ValueFunc):
         start = args.getInt("startidx").value
         if start < 0:
             start = len(value) + start
+        if start < 0:
+            start = 0
         if start > len(value):
             return ValueString("")
         end = args.getInt("endidx", len(value)).value
         if end < 0:
             end = len(value) + end
+        if end < 0:
+            end = 0
         if end > len(value):
             end = len(value)
         return ValueString(value[start:end])
